@@ -36,7 +36,7 @@ One(n, d) == (n :> d)
 (* Shape                                                                    *)
 LeafBasic   == {B(n) : n \in {"int", "string", "bool", "float64", "byte", "rune", "uintptr", "complex128", "error", "any"}} \cup {Unsafe}
 LeafLocal   == {N("SRC", "LT"), N("SRC", "lt"), N("SRC", "LI"), N("SRC", "LE"), N("SRC", "LA")}
-LeafForeign == {N("FD", "T"), N("FD", "E"), N("FX", "T"), N("FX", "I"), N("FX", "E"), N("FX", "A"), N("FY", "T"), N("FZ", "T"), N("FV", "T"), N("FM", "T"), N("FS", "T"),
+LeafForeign == {N("FX", "TI"), N("FD", "T"), N("FD", "E"), N("FX", "T"), N("FX", "I"), N("FX", "E"), N("FX", "A"), N("FY", "T"), N("FZ", "T"), N("FV", "T"), N("FM", "T"), N("FS", "T"),
                 N("FX", "Client"), N("FY", "Client"), N("FX", "Token"), N("FV", "Token")}   \* aliases of types the destination cannot name
 LeafStd     == {N("Sio", "Reader"), N("Scontext", "Context"), N("Stime", "Duration")}
 LeafInst    == {Inst("SRC", "LG", <<Int>>), Inst("FX", "G", <<N("FY", "T")>>), Inst("SRC", "LG2", <<Str, N("FX", "T")>>)}
@@ -44,7 +44,7 @@ Leaves      == LeafBasic \cup LeafLocal \cup LeafForeign \cup LeafStd \cup LeafI
 LeavesSmall == {Int, Str, Err, N("SRC", "LT"), N("FX", "T"), N("FY", "T"), N("Sio", "Reader"), Inst("FX", "G", <<N("FZ", "T")>>)}
 LeafClass(t) == IF t \in LeafBasic THEN "basic" ELSE IF t \in LeafLocal THEN "local" ELSE IF t \in LeafForeign THEN "foreign"
                 ELSE IF t \in LeafStd THEN "std" ELSE IF t \in LeafInst THEN "inst" ELSE "composite"
-IsIfaceLeaf(t) == t \in {N("SRC", "LI"), N("FX", "I"), N("Sio", "Reader"), N("Scontext", "Context")}
+IsIfaceLeaf(t) == t \in {N("FX", "TI"), N("SRC", "LI"), N("FX", "I"), N("Sio", "Reader"), N("Scontext", "Context")}
 IsNamedLeaf(t) == t.k = "named"
 
 Unary(e) ==
@@ -167,7 +167,9 @@ AuxDecls ==
   \* never embedded: same method names as J, LGI, R2 with other signatures (several interfaces mocked into one file)
   ("Q"  :> Decl(<< >>, << >>, <<Meth("Foo", <<V("a", Str)>>, <<V("", Int)>>, FALSE), Meth("Get", << >>, <<V("", Err)>>, FALSE),
                                   Meth("Read", << >>, << >>, FALSE), Meth("Close", <<V("xs", N("FX", "T"))>>, << >>, TRUE)>>)) @@
-  ("LGI" :> Decl(<<TPar("T", AnyT)>>, << >>, <<Meth("Get", << >>, <<V("", TP("T"))>>, FALSE), Meth("Put", <<V("v", TP("T"))>>, << >>, FALSE)>>))
+  ("LGI" :> Decl(<<TPar("T", AnyT)>>, << >>, <<Meth("Get", << >>, <<V("", TP("T"))>>, FALSE), Meth("Put", <<V("v", TP("T"))>>, << >>, FALSE)>>)) @@
+  ("LKV" :> Decl(<<TPar("K", B("comparable")), TPar("V", AnyT)>>, << >>,
+                 <<Meth("Get", <<V("k", TP("K"))>>, <<V("", TP("V")), V("", Bool)>>, FALSE), Meth("Put", <<V("k", TP("K")), V("v", TP("V"))>>, << >>, FALSE)>>))
 EmbedPool == {B("error"), B("any"), N("SRC", "J"), N("FX", "I"), N("Sio", "ReadWriter"), Inst("SRC", "LGI", <<Int>>), Inst("FX", "GI", <<N("FY", "T")>>),
               N("SRC", "R2"), N("SRC", "K3"), N("FX", "RW"), N("Sfmt", "Stringer"), N("Ssync", "Locker"), N("Sio", "Reader")}
 RECURSIVE SetToSeq(_)
@@ -194,9 +196,12 @@ MultiOf(p, order, tag) ==
             !.decls = IF tag = "B" THEN p.decls @@ LiDecl ELSE p.decls]
 MultiOrderA == <<"J", "J2", "K3", "LGI", "Q", "R2">>
 MultiOrderB == <<"LGI", "li", "Q", "J">>          \* generic first, then an unexported one, then plain ones
+MultiOrderC == <<"LKV", "LGI", "R2", "J">>        \* generic(K, V) -> generic(T) -> plain -> plain (-> the target)
 MultiBase(k) == {p \in {EmbedProgOf(S, own) : S \in EmbedSets(k), own \in BOOLEAN} : WellFormedProg(p)}
 MultiQuick == {MultiOf(p, MultiOrderA, "A") : p \in MultiBase(1)} \cup {MultiOf(p, MultiOrderB, "B") : p \in MultiBase(1)}
+              \cup {MultiOf(p, MultiOrderC, "C") : p \in MultiBase(1)}
 MultiThorough == {MultiOf(p, MultiOrderA, "A") : p \in MultiBase(2)} \cup {MultiOf(p, MultiOrderB, "B") : p \in MultiBase(2)}
+                 \cup {MultiOf(p, MultiOrderC, "C") : p \in MultiBase(1)}
 
 (* ------------------------------------------------------------------------ *)
 (* Generic: type parameters x constraints; named instantiations              *)
@@ -240,6 +245,7 @@ ConstraintsMulti ==
    Iface(<< >>, <<N("SRC", "LC"), Union(<<Str>>)>>), Iface(<< >>, <<Union(<<Str>>), N("FX", "C")>>),
    Iface(<< >>, <<N("SRC", "Number")>>), Iface(<< >>, <<N("SRC", "LStr")>>), Iface(<< >>, <<N("SRC", "LStr"), Cmp>>),
    Iface(<< >>, <<N("FC", "Ordered"), Cmp>>), Iface(<< >>, <<Cmp, N("FC", "Ordered")>>),
+   N("SRC", "LSealed"), N("FX", "Sealed"), Iface(<< >>, <<N("SRC", "LSealed"), Cmp>>), Iface(<<StringM>>, <<N("SRC", "Number")>>),
    Union(<<Plain(N("FX", "E")), Str>>), Union(<<Str, Plain(N("FX", "E"))>>),
    Union(<<Slice(N("Stime", "Duration"))>>), Union(<<Map(Str, Ptr(N("FX", "T")))>>), Union(<<CtxFn>>),
    Union(<<Slice(N("SRC", "LT")), Str>>), Union(<<Int, Slice(N("FY", "T"))>>),
@@ -305,6 +311,24 @@ GenPreAll == {GenPreProg(x) : x \in GenTypeLike \cup GenFuncLike}
 LocalAll == {LocalProg(n) : n \in LocalNamed} \cup {UnnamedProg(ts) : ts \in UnnamedSigs} \cup GenPreAll
 
 (* ------------------------------------------------------------------------ *)
+(* Repl: `replace-type` whose replacement is an ALIAS of the replaced type (io.T -> io.A = T): the types stay identical, *)
+(* so the mock must still implement the source interface exactly.  The replaced type occurs first / in the middle /     *)
+(* last, followed by parameters and results of UNNAMED types (basic, slice, map, pointer, func), and nested (not          *)
+(* replaced there).  `repl` tells the harness which replace-type entry to configure.                                      *)
+FT == N("FX", "T")
+ReplSigs ==
+  <<Meth("M", <<V("tok", FT), V("scope", Str), V("retries", Int)>>, <<V("", Err)>>, FALSE),
+    Meth("N", <<V("ctx", N("Scontext", "Context")), V("user", Str)>>, <<V("", FT), V("", Str)>>, FALSE),
+    Meth("V", <<V("x", FT), V("bs", Slice(B("byte")))>>, <<V("", Map(Str, Int)), V("", Ptr(Int))>>, TRUE),
+    Meth("W", <<V("m", Map(Str, FT)), V("t", FT), V("p", Ptr(FT)), V("f", Fn(<<V("", Int)>>, <<V("", Str)>>, FALSE))>>, <<V("", Slice(FT))>>, FALSE),
+    Meth("X", <<V("", Int), V("", FT), V("", Str)>>, <<V("", FT), V("", Bool), V("", FT)>>, FALSE)>>
+ReplAll == {P("repl/FX.T->FX.A", "repl", "FX.T->FX.A", "cs", One("I", Decl(<< >>, << >>, ReplSigs)), "I")
+              @@ [repl |-> [from |-> FT, to |-> N("FX", "A")]],
+            P("repl/FX.T->FX.A/embedded", "repl", "FX.T->FX.A/embedded", "cs",
+              ("R" :> Decl(<< >>, << >>, ReplSigs)) @@ One("I", Decl(<< >>, <<N("SRC", "R")>>, <<Meth("Close", <<V("t", FT), V("why", Str)>>, << >>, FALSE)>>)), "I")
+              @@ [repl |-> [from |-> FT, to |-> N("FX", "A")]]}
+
+(* ------------------------------------------------------------------------ *)
 (* Ext: interfaces of packages OUTSIDE the module (stdlib), configured directly; the mock always lives in a separate   *)
 (* package.  "SRC" is that package; no source file is written (extpkg tells the harness which package it is).           *)
 WrM == Meth("Write", <<V("p", Bts)>>, <<V("n", Int), V("err", Err)>>, FALSE)
@@ -319,8 +343,8 @@ ExtAll == {ExtProg("Sio", "io", ("Reader" :> Decl(<< >>, << >>, <<RdM>>)) @@ ("W
 AllPkgIds == ForeignPkgs \cup StdPkgs \cup {"TM"}
 ASSUME PrintT(<<"TABLES", ToJson([pkgnames |-> [p \in AllPkgIds |-> PkgName(p, "")], methodorder |-> MethodOrder])>>)
 
-MCQuick    == ShapeQuick \cup IdentQuick \cup CaseClash \cup PkgsQuick \cup EmbedQuick \cup GenericAll \cup MNameAll \cup LocalAll \cup MultiQuick \cup ExtAll
-MCThorough == ShapeThorough \cup IdentAll \cup CaseClash \cup PkgsThorough \cup EmbedThorough \cup GenericAll \cup MNameAll \cup LocalAll \cup MultiThorough \cup ExtAll
+MCQuick    == ShapeQuick \cup IdentQuick \cup CaseClash \cup PkgsQuick \cup EmbedQuick \cup GenericAll \cup MNameAll \cup LocalAll \cup MultiQuick \cup ExtAll \cup ReplAll
+MCThorough == ShapeThorough \cup IdentAll \cup CaseClash \cup PkgsThorough \cup EmbedThorough \cup GenericAll \cup MNameAll \cup LocalAll \cup MultiThorough \cup ExtAll \cup ReplAll
 \* small smoke set used while developing
 MCSmoke    == {ShapeProg(t, "d1") : t \in {Int, N("FX", "T"), Chan("recv", N("FY", "T"))}} \cup {IdentProg(x, "p1") : x \in {"io", "mock", "string"}}
 =============================================================================
